@@ -6,9 +6,15 @@ import tie
 
 RULE = ("every raisable error kind (expression-level and statement-level) x syntactic position {statement, condition, return "
         "expression, argument, index, loop iterable, destructure source, interpolation slot, object value, list item} x call depth "
-        "0..3 (quick) / 0..5 (thorough) x {plain, inside loop, inside bare block, inside method}; plus every lexical and parse "
-        "error kind; oracle = stderr grammar, planted call chain vs stack trace, planted prints vs stdout, no internal "
-        "identifiers; non-trivial = distinct (error, position, depth, context)")
+        "0..3 (quick) / 0..5 (thorough) x {plain, inside loop, inside bare block, inside method}; every binding error (name twice, "
+        "shape mismatch, non-bindable target, undefined assignment target) x binding position {:=, =, parameter, second parameter, "
+        "method parameter, for value over list/object/second iteration, for pair over list/object/string/range} x pattern nesting "
+        "0..3 x the same depths and contexts; failures under recursion through the same call site 2..40 levels deep (direct in 12 "
+        "call styles, two sites, mutual 2/3, methods, callbacks, under/over helper chains, natural) with the whole trace planted: "
+        "one line per active call with the position of that call, judged on the plain CLI; number-like text (digits continued by "
+        "radix/exponent letters, `_`, `.`, quotes, non-ASCII, end of file) x 11 places: success or one located diagnostic, never a "
+        "crash; plus every lexical and parse error kind; oracle = stderr grammar, planted call chain vs stack trace, planted "
+        "prints vs stdout, no internal identifiers; non-trivial = distinct (error, position, depth, context)")
 ASSUMPTIONS = ["a diagnostic raised inside an interpolation slot carries a second, slot-relative position inside its message "
                "(`l:c: l2:c2: msg`); the grammar accepts it as message text"]
 
@@ -214,6 +220,478 @@ def known_slot_call_shape(r, expected_stdout, expected_trace, first_in, slot_own
     return consumed == rest and [c for _, _, c in tr] == expected_trace and all(int(a) >= 1 for a, _, _ in tr)
 
 
+# ---------------------------------------------------------------------------------------------------------------------
+# failures under recursion: the same call site is active many times.  The generator plants the call chain — which call
+# site of which function made each active call — so the whole trace is predicted: one line per active call, innermost first,
+# each with the position of that call (the start of the call expression, marked «x» in the template) and the name of the
+# function that contains it, ending at <root>.  No interpolation slots anywhere (K1/K6).
+
+REC_FAILS = [
+    ("undefined", "v_u := zz_undefined"), ("optypes", 'v_u := 1 + "a"'), ("destruct_len", "[q1, q2] := [1]"),
+    ("div0", "v_u := 1 / 0"), ("assign_undefined", "zz_undefined = 1"), ("prop_missing", 'v_u := {"a": 1}.zz'),
+]
+
+# how the recursive call is written inside its function ({c} = the marked call expression)
+REC_STYLES = {
+    "return": "return {c}",
+    "stmt": "{c}\nreturn 0",
+    "declare": "v_r := {c}\nreturn v_r",
+    "operand": "return 1 + {c}",
+    "argument": "return ident({c})",
+    "list-item": "v_r := [1, {c}]\nreturn 0",
+    "prop-value": 'v_r := {{"k": {c}}}\nreturn 0',
+    "condition": "if {c} == 0 {{\n    return 1\n}}\nreturn 0",
+    "in-for": "for [k_i, v_i] in [7] {{\n    {c}\n}}\nreturn 0",
+    "in-while": "i_w := 0\nwhile i_w < 1 {{\n    i_w += 1\n    v_r := {c}\n}}\nreturn 0",
+    "for-iterable": "for [k_i, v_i] in [{c}] {{\n    ok_acc += 1\n}}\nreturn 0",
+    "index": "return ok_list[{c}]",
+}
+
+REC_PRELUDE = 'fn ident(x) {\n    return x\n}\nok_list := [1, 2, 3]\nok_acc := 0\nprint("p0")\n'
+
+
+def _ind(s, n):
+    return "\n".join(("    " * n + l) if l else l for l in s.split("\n"))
+
+
+def unmark(text):
+    """`«x»` (x = one character) marks the offset of what follows it: returns (clean text, {x: (line, col)})"""
+    import lib_syntax as LS
+    marks, clean, i = {}, [], 0
+    n = 0
+    while i < len(text):
+        if text[i] == "«":
+            marks[text[i + 1]] = n
+            i += 3
+        else:
+            clean.append(text[i])
+            n += 1
+            i += 1
+    clean = "".join(clean)
+    return clean, {k: LS.pos_of(clean, v) for k, v in marks.items()}
+
+
+def _base(fail):
+    return 'if n == 0 {\n    print("p-inner")\n' + _ind(fail, 1) + "\n}\n"
+
+
+def rec_shapes():
+    """name -> builder(n, fail) -> (marked source, [(mark, caller name)] innermost first, name on the first line, stdout)"""
+    sh = {}
+
+    def direct(style):
+        def b(n, fail):
+            body = _base(fail) + "v_done := ident(n)\n" + REC_STYLES[style].replace("{c}", "«A»rec(n - 1)").replace("{{", "{").replace("}}", "}")
+            src = REC_PRELUDE + "fn rec(n) {\n" + _ind(body, 1) + "\n}\n" + f"«R»rec({n})\nprint(\"unreachable\")\n"
+            return src, [("A", "rec")] * n + [("R", "<root>")], "rec", "p0\np-inner\n"
+        return b
+    for st in REC_STYLES:
+        sh["direct:" + st] = direct(st)
+
+    def counting(n, fail):      # every level prints on the way down: all of it is output completed before the failure
+        body = "print(n)\n" + _base(fail) + "return «A»rec(n - 1)"
+        src = REC_PRELUDE + "fn rec(n) {\n" + _ind(body, 1) + "\n}\n" + f"v_top := [«R»rec({n})]\n"
+        return src, [("A", "rec")] * n + [("R", "<root>")], "rec", "p0\n" + "".join(f"{k}\n" for k in range(n, -1, -1)) + "p-inner\n"
+    sh["direct:printing-levels"] = counting
+
+    def mutual(k):
+        names = ["ma", "mb", "mc"][:k]
+        def b(n, fail):
+            src = REC_PRELUDE
+            for i, f in enumerate(names):
+                nxt = names[(i + 1) % k]
+                src += f"fn {f}(n) {{\n" + _ind(_base(fail) + f"return «{i}»{nxt}(n - 1)", 1) + "\n}\n"
+            src += f"«R»ma({n})\n"
+            chain = [names[i % k] for i in range(n + 1)]                # chain[i] runs with n - i
+            tr = [(str(names.index(chain[i - 1])), chain[i - 1]) for i in range(n, 0, -1)] + [("R", "<root>")]
+            return src, tr, chain[-1], "p0\np-inner\n"
+        return b
+    sh["mutual:2"] = mutual(2)
+    sh["mutual:3"] = mutual(3)
+
+    def method_this(n, fail):
+        src = REC_PRELUDE + 'o_rec := {"tag": 1, "m": fn (n) {\n' + _ind(_base(fail) + "return «A»this.m(n - 1)", 1) + "\n}}\n" + f"«R»o_rec.m({n})\n"
+        return src, [("A", "<unnamed function>")] * n + [("R", "<root>")], "<unnamed function>", "p0\np-inner\n"
+    sh["method:this"] = method_this
+
+    def method_global(n, fail):
+        src = REC_PRELUDE + 'o_rec := {"m": fn (n) {\n' + _ind(_base(fail) + 'v_r := 1 + «A»o_rec["m"](n - 1)\nreturn v_r', 1) + "\n}}\n" + f"v_top := «R»o_rec.m({n})\n"
+        return src, [("A", "<unnamed function>")] * n + [("R", "<root>")], "<unnamed function>", "p0\np-inner\n"
+    sh["method:through-global"] = method_global
+
+    def method_named(n, fail):      # a named function stored in an object and called as a method of it
+        src = (REC_PRELUDE + "fn walk(n) {\n" + _ind(_base(fail) + "return «A»this.w(n - 1)", 1) + "\n}\n" + 'o_w := {"w": walk}\n' + f"«R»o_w.w({n})\n")
+        return src, [("A", "walk")] * n + [("R", "<root>")], "walk", "p0\np-inner\n"
+    sh["method:named-function"] = method_named
+
+    def anon_var(n, fail):
+        src = REC_PRELUDE + "rec_v := fn (n) {\n" + _ind(_base(fail) + "return «A»rec_v(n - 1)", 1) + "\n}\n" + f"«R»rec_v({n})\n"
+        return src, [("A", "<unnamed function>")] * n + [("R", "<root>")], "<unnamed function>", "p0\np-inner\n"
+    sh["anonymous:variable"] = anon_var
+
+    def cb_self(n, fail):
+        src = REC_PRELUDE + "fn cb(f, n) {\n" + _ind(_base(fail) + "return «A»f(f, n - 1)", 1) + "\n}\n" + f"«R»cb(cb, {n})\n"
+        return src, [("A", "cb")] * n + [("R", "<root>")], "cb", "p0\np-inner\n"
+    sh["callback:self-passing"] = cb_self
+
+    def cb_apply(n, fail):
+        src = (REC_PRELUDE + "fn apply(f, n) {\n    return «B»f(n)\n}\n" + "fn rec(n) {\n" + _ind(_base(fail) + "return «A»apply(rec, n - 1)", 1) + "\n}\n" + f"«R»rec({n})\n")
+        return src, [("B", "apply"), ("A", "rec")] * n + [("R", "<root>")], "rec", "p0\np-inner\n"
+    sh["callback:through-apply"] = cb_apply
+
+    def cb_each(n, fail):       # the callback is called from a loop inside the helper
+        src = (REC_PRELUDE + "fn each(xs, f) {\n    for [i_e, x_e] in xs {\n        «B»f(x_e)\n    }\n    return 0\n}\n" + "fn rec(n) {\n" + _ind(_base(fail) + "return «A»each([n - 1], rec)", 1) + "\n}\n" + f"«R»rec({n})\n")
+        return src, [("B", "each"), ("A", "rec")] * n + [("R", "<root>")], "rec", "p0\np-inner\n"
+    sh["callback:from-loop-in-helper"] = cb_each
+
+    def cb_anon(n, fail):       # an anonymous callback written at the call, recursing through the named function
+        body = _base(fail) + "return «A»apply(fn (m) {\n    return «C»rec(m)\n}, n - 1)"
+        src = (REC_PRELUDE + "fn apply(f, n) {\n    return «B»f(n)\n}\n" + "fn rec(n) {\n" + _ind(body, 1) + "\n}\n" + f"«R»rec({n})\n")
+        return src, [("C", "<unnamed function>"), ("B", "apply"), ("A", "rec")] * n + [("R", "<root>")], "rec", "p0\np-inner\n"
+    sh["callback:anonymous-at-the-call"] = cb_anon
+
+    def parity(n, fail):        # two call sites, taken alternately
+        body = _base(fail) + "if n % 2 == 0 {\n    return «A»rec(n - 1)\n}\nreturn «B»rec(n - 1)"
+        src = REC_PRELUDE + "fn rec(n) {\n" + _ind(body, 1) + "\n}\n" + f"«R»rec({n})\n"
+        return src, [("A" if k % 2 == 0 else "B", "rec") for k in range(1, n + 1)] + [("R", "<root>")], "rec", "p0\np-inner\n"
+    sh["direct:two-sites-alternating"] = parity
+
+    def halves(n, fail):        # two call sites, each in a run: the upper half of the descent through one, the lower through the other
+        h = n // 2
+        body = _base(fail) + f"if n > {h} {{\n    return «A»rec(n - 1)\n}}\nreturn «B»rec(n - 1)"
+        src = REC_PRELUDE + "fn rec(n) {\n" + _ind(body, 1) + "\n}\n" + f"«R»rec({n})\n"
+        return src, [("A" if k > h else "B", "rec") for k in range(1, n + 1)] + [("R", "<root>")], "rec", "p0\np-inner\n"
+    sh["direct:two-sites-in-runs"] = halves
+
+    def then_helpers(n, fail):  # the recursion bottoms out in a chain of other functions; the last one fails
+        src = (REC_PRELUDE + "fn g2() {\n    print(\"p-inner\")\n" + _ind(fail, 1) + "\n    return 0\n}\nfn g1() {\n    return «D»g2()\n}\n"
+               "fn rec(n) {\n    if n == 0 {\n        return «C»g1()\n    }\n    return «A»rec(n - 1)\n}\n" + f"«R»rec({n})\n")
+        return src, [("D", "g1"), ("C", "rec")] + [("A", "rec")] * n + [("R", "<root>")], "g2", "p0\np-inner\n"
+    sh["direct:then-helper-chain"] = then_helpers
+
+    def under_helpers(n, fail):
+        src = (REC_PRELUDE + "fn rec(n) {\n" + _ind(_base(fail) + "return «A»rec(n - 1)", 1) + "\n}\n"
+               f"fn h2() {{\n    return «H»rec({n})\n}}\nfn h1() {{\n    v_h := «G»h2()\n    return v_h\n}}\n«R»h1()\n")
+        return src, [("A", "rec")] * n + [("H", "h2"), ("G", "h1"), ("R", "<root>")], "rec", "p0\np-inner\n"
+    sh["direct:under-helper-chain"] = under_helpers
+
+    def nested_decl(n, fail):   # the recursive function is declared inside another function
+        inner = "fn rec(n) {\n" + _ind(_base(fail) + "return «A»rec(n - 1)", 1) + "\n}\n" + f"return «H»rec({n})"
+        src = REC_PRELUDE + "fn outer() {\n" + _ind(inner, 1) + "\n}\n«R»outer()\n"
+        return src, [("A", "rec")] * n + [("H", "outer"), ("R", "<root>")], "rec", "p0\np-inner\n"
+    sh["direct:declared-in-function"] = nested_decl
+
+    def after_success(n, fail): # the same recursion first runs to completion, then fails on a second descent
+        body = 'if n == 0 {\n    if bad {\n        print("p-inner")\n' + _ind(fail, 2) + "\n    }\n    return 0\n}\nreturn «A»rec(n - 1, bad)"
+        src = REC_PRELUDE + "fn rec(n, bad) {\n" + _ind(body, 1) + "\n}\n" + f"v_ok := rec({n + 3}, false)\nprint(v_ok)\n«R»rec({n}, true)\n"
+        return src, [("A", "rec")] * n + [("R", "<root>")], "rec", "p0\n0\np-inner\n"
+    sh["direct:after-a-completed-descent"] = after_success
+
+    def second_descent(n, fail):    # each level first makes a call that returns, then recurses: returned calls leave no line
+        body = _base(fail) + "v_s := side(n)\nreturn «A»rec(n - 1)"
+        src = (REC_PRELUDE + "fn side(n) {\n    if n == 0 {\n        return 0\n    }\n    return side(n - 1)\n}\n" + "fn rec(n) {\n" + _ind(body, 1) + "\n}\n" + f"«R»rec({n})\n")
+        return src, [("A", "rec")] * n + [("R", "<root>")], "rec", "p0\np-inner\n"
+    sh["direct:beside-completed-recursions"] = second_descent
+
+    def linked(n, fail):        # the walk does not stop at the null that ends the list (`fail` unused: the failure is natural)
+        src = ('fn sum(node) {\n    return node.value + «A»sum(node.next)\n}\nfn build(n) {\n    node := null\n    for [_, i] in 0 .. n {\n'
+               '        node = {"value": i, "next": node}\n    }\n    return node\n}\nprint("p0")\n' + f"print(«R»sum(build({n})))\n")
+        return src, [("A", "sum")] * n + [("R", "<root>")], "sum", "p0\n"
+    sh["natural:walk-past-the-end"] = linked
+
+    def countdown_index(n, fail):   # natural: the recursion indexes a list one past its end at the bottom
+        src = ('fn at(xs, i) {\n    if xs[i] == 0 {\n        return 0\n    }\n    return 1 + «A»at(xs, i + 1)\n}\nprint("p0")\n'
+               + "xs := [" + ", ".join(["1"] * n) + "]\n" + "v_n := «R»at(xs, 0)\n")
+        return src, [("A", "at")] * n + [("R", "<root>")], "at", "p0\n"
+    sh["natural:index-past-the-end"] = countdown_index
+    return sh
+
+
+def check_rec(r, marks, frames, first_in, expected_stdout, nlines):
+    if r["status"] != "103":
+        return f"expected exit status 103, got {r['status']}"
+    if r["stdout"] != expected_stdout:
+        return f"stdout is not the output of the prints completed before the failure: {r['stdout'][-120:]!r} vs {expected_stdout[-120:]!r}"
+    e = r["stderr"]
+    m = FIRST.match(e)
+    if not m:
+        return f"stderr does not start with `<path>:<line>:<col>: [in '<f>': ]<message>`: {e[:160]!r}"
+    if not 1 <= int(m.group(1)) <= nlines:
+        return f"line {m.group(1)} does not point into the script ({nlines} lines)"
+    if INTERNAL.search(m.group(4)):
+        return f"internal identifier in message: {m.group(4)[:160]!r}"
+    if m.group(3) != first_in:
+        return f"first line names function {m.group(3)!r}, expected {first_in!r}"
+    want = "Stacktrace:\n" + "".join(f"  t.sd:{marks[k][0]}:{marks[k][1]}: in '{name}'\n" for k, name in frames)
+    rest = e[m.end():]
+    if rest != want:
+        got_lines, want_lines = rest.split("\n"), want.split("\n")
+        i = next((i for i, (a, b) in enumerate(zip(got_lines, want_lines)) if a != b), min(len(got_lines), len(want_lines)))
+        return (f"the stack trace is not one line per active call: {len(frames)} calls are active, the text after the first line has "
+                f"{max(0, len(got_lines) - 2)} lines after `Stacktrace:`; first difference at trace line {i}: got "
+                f"{got_lines[i] if i < len(got_lines) else '<end>'!r}, the planted call chain gives {want_lines[i] if i < len(want_lines) else '<end>'!r}")
+    return None
+
+
+def recursion_cases(tier):
+    depths = list(range(2, 41)) if tier == "thorough" else [2, 3, 4, 5, 6, 8, 11, 16, 25, 40]
+    out = []
+    for si, (name, build) in enumerate(sorted(rec_shapes().items())):
+        for di, n in enumerate(depths):
+            fails = REC_FAILS if tier == "thorough" and n in (2, 4, 5, 40) else [REC_FAILS[(si + di) % len(REC_FAILS)]]
+            if name.startswith("natural:"):
+                fails = fails[:1]
+            for fname, fail in fails:
+                marked, frames, first_in, stdout = build(n, fail)
+                src, marks = unmark(marked)
+                out.append(((name, n, fname if not name.startswith("natural:") else "natural"), src, marks, frames, first_in, stdout))
+    return out
+
+
+def run_recursion(ctx, model_ok):
+    cases = recursion_cases(ctx.tier)
+    srcs = [c[1] for c in cases]
+    # the trace is rendered by the command-line driver: the oracle judges the plain CLI; the hook and the model are tied (leg B)
+    cli = core.cli_batch(srcs)
+    ctx.count("recursion_traces:cli", len(srcs))
+    bad = []
+    for (key, src, marks, frames, first_in, stdout), r in zip(cases, cli):
+        ctx.nontrivial(("recursion",) + key)
+        ctx.dist("recursion-depth:" + ("2-5" if key[1] <= 5 else "6-16" if key[1] <= 16 else "17-40"))
+        why = check_rec(r, marks, frames, first_in, stdout, src.count("\n"))
+        if why:
+            bad.append((key, src, why, r))
+    bad.sort(key=lambda b: (b[0][1], len(b[1])))
+    seen = set()
+    for key, src, why, r in bad:
+        sig = (key[0].split(":")[0], re.sub(r"\d+", "N", why)[:50])
+        if sig in seen or len(seen) >= 6:
+            continue
+        seen.add(sig)
+        ctx.violation("failure under recursion: " + why, src, {"case": str(key), "cli": r, "failing_cases_in_stream": len(bad)})
+    impl, dis = tie.run(ctx, srcs, "recursion_traces", model_ok)
+    explained = {b[1] for b in bad}
+    tie.report_disagreements(ctx, [d for d in dis if d[0] not in explained], "recursion_traces")
+    k = len(cases) // 2
+    ctx.sample({"case": str(cases[k][0]), "src": cases[k][1][-300:], "cli_stderr": cli[k]["stderr"][:400]})
+
+
+# ---------------------------------------------------------------------------------------------------------------------
+# binding errors in every binding position.  A pattern that cannot be bound to its value — a name twice, a shape mismatch, a
+# target that is not bindable, (assignment) a name that is not defined — written as the target of `:=`, of `=`, as a parameter
+# (named function, second parameter, anonymous method), as the target of a `for` (the value of the pair, over a list / an
+# object / at the second iteration; the pair itself), at nesting depth 0..3 inside a larger pattern, inside the call chains
+# and contexts of `wrap`.  (pattern, failing value, a value the pattern accepts or None)
+BIND_ERRORS = [
+    ("dup_pair", "[d1, d1]", "[1, 2]", None),
+    ("dup_object", '{"a": d1, "b": d1}', '{"a": 1, "b": 2}', None),
+    ("dup_mixed", '[d1, {"a": d1}]', '[1, {"a": 2}]', None),
+    ("dup_deep", "[d1, [q1, [d1]]]", "[1, [2, [3]]]", None),
+    ("dup_collect", "[d1, ..d1]", "[1, 2]", None),
+    ("dup_object_collect", '{"a": d1, ..d1}', '{"a": 1, "b": 2}', None),
+    ("len_short", "[q1, q2]", "[1]", "[1, 2]"),
+    ("len_long", "[q1]", "[1, 2]", "[1]"),
+    ("len_empty", "[q1]", "[]", "[1]"),
+    ("nonlist_int", "[q1]", "1", "[1]"),
+    ("nonlist_null", "[q1, q2]", "null", "[1, 2]"),
+    ("nonlist_object", "[q1]", '{"q1": 1}', "[1]"),
+    ("nonobject_list", "{q1}", "[1]", '{"q1": 1}'),
+    ("nonobject_null", "{q1}", "null", '{"q1": 1}'),
+    ("missing_shorthand", "{q1}", '{"a": 1}', '{"q1": 1}'),
+    ("missing_named", '{"k": q1}', '{"a": 1}', '{"k": 1}'),
+    ("collect_too_few", "[q1, q2, ..q3]", "[1]", "[1, 2]"),
+    ("inner_len", "[q1, [q2, q3]]", "[1, [2]]", "[1, [2, 3]]"),
+    ("inner_nonobject", '[q1, {"k": q2}]', "[1, 2]", '[1, {"k": 2}]'),
+    ("literal_target", "[q1, 1]", "[1, 1]", None),
+    ("call_target", "[q1, ok_fn()]", "[1, 1]", None),
+]
+# only in assignment: a leaf that is not defined
+ASSIGN_ERRORS = [
+    ("undefined_name", "zz_undefined", "1"), ("undefined_in_list", "[q1, zz_undefined]", "[1, 2]"),
+    ("undefined_in_object", '{"a": zz_undefined}', '{"a": 1}'), ("undefined_deep", "[q1, [q2, {\"k\": zz_undefined}]]", '[1, [2, {"k": 3}]]'),
+    ("undefined_collect", "[q1, ..zz_undefined]", "[1, 2]"),
+]
+BIND_NESTS = [
+    lambda p, v: (p, v),
+    lambda p, v: (f"[n1, {p}]", f"[0, {v}]"),
+    lambda p, v: (f'[n1, {{"k": {p}}}]', f'[0, {{"k": {v}}}]'),
+    lambda p, v: (f'{{"a": [{p}, n2], "b": n1}}', f'{{"a": [{v}, 0], "b": 0}}'),
+]
+BIND_NAMES = ["d1", "q1", "q2", "q3", "n1", "n2"]
+_FN_BODY = "{\n    print(\"in-function\")\n    return 0\n}"
+
+
+def _validated_at_definition(kind):
+    # the parameter list of a `fn name(…)` declaration is validated by the declaration (DESIGN.md C20 `dup_param`, `param_rejects_match_source`):
+    # a repeated name or a target that is not bindable fails there, in the function that contains the definition
+    return kind.startswith("dup_") or kind in ("literal_target", "call_target")
+
+
+def binders(kind, p, v, good):
+    """(binder name, statement text, what it prints before failing, extra innermost frame or None)"""
+    out = [("declare", f"{p} := {v}", "", None),
+           ("assign", "".join(f"{n} := 0\n" for n in BIND_NAMES) + f"{p} = {v}", "", None)]
+    at_def = _validated_at_definition(kind)
+    out.append(("parameter", f"fn g_b({p}) {_FN_BODY}\ng_b({v})", "", None if at_def else "g_b"))
+    out.append(("second-parameter", f"fn g_b(p0, {p}, ..p9) {_FN_BODY}\ng_b(0, {v}, 5)", "", None if at_def else "g_b"))
+    out.append(("method-parameter", f'm_b := {{"m": fn ({p}) {_FN_BODY}}}\nm_b.m({v})', "", "<unnamed function>"))     # a function literal is not validated: fails at the call
+    body = "{\n    print(\"in-body\")\n}"
+    out.append(("for-value:list", f"for [k_b, {p}] in [{v}] {body}", "", None))
+    out.append(("for-value:object", f'for [k_b, {p}] in {{"key": {v}}} {body}', "", None))
+    if good is not None:
+        out.append(("for-value:second-iteration", f"for [k_b, {p}] in [{good}, {v}] {body}", "in-body\n", None))
+        out.append(("parameter:second-call", f"fn g_b({p}) {_FN_BODY}\ng_b({good})\ng_b({v})", "in-function\n", "g_b"))
+    out.append(("for-item", f"for {p} in [0, 1] {body}", "", None) if kind in ("dup_pair", "dup_collect", "literal_target", "call_target") else None)
+    return [b for b in out if b]
+
+
+# targets of a `for` that cannot take the [key, value] pair itself
+FOR_PAIR_ERRORS = [
+    ("for_pair_dup", "[d1, d1]"), ("for_pair_dup_collect", "[d1, ..d1]"), ("for_pair_too_many", "[q1, q2, q3]"), ("for_pair_too_few", "[q1]"),
+    ("for_pair_object", "{q1}"), ("for_pair_key_pattern", "[[q1], q2]"), ("for_pair_value_pattern", "[q1, [q2]]"), ("for_pair_literal", "[q1, 1]"),
+    ("for_pair_dup_inner", "[d1, [d1]]"), ("for_pair_empty", "[]"),
+]
+FOR_ITERABLES = [("list", "[7]"), ("object", '{"key": 7}'), ("string", '"ab"'), ("range", "(3 .. 5)"), ("list-of-list", "[[7, 8]]")]
+
+
+def binding_cases(tier, maxd):
+    out = []
+    ctxkinds = ["plain", "loop", "block", "method", "while"]
+
+    def keep(kind, binder, nest, depth, ck):
+        if tier == "thorough" or (depth <= 1 and ck == "plain" and nest <= 1):
+            return True
+        return (len(kind) + 3 * len(binder) + 5 * nest + 7 * depth + len(ck)) % 8 == 0
+
+    def add(kind, binder, nest, depth, ck, st, printed, frame):
+        src, o, tr, fi = wrap(st, depth, ck, extra_frame=frame)
+        out.append((("bind:" + kind, "binder:" + binder + f"/nest{nest}", depth, ck), src, o + printed, tr, fi))
+
+    for kind, p0, v0, g0 in BIND_ERRORS:
+        for nest, mk in enumerate(BIND_NESTS):
+            p, v = mk(p0, v0)
+            good = mk(p0, g0)[1] if g0 is not None else None
+            for binder, st, printed, frame in binders(kind, p, v, good):
+                for depth in range(0, maxd + 1):
+                    for ck in ctxkinds:
+                        if keep(kind, binder, nest, depth, ck):
+                            add(kind, binder, nest, depth, ck, st, printed, frame)
+    for kind, p0, v0 in ASSIGN_ERRORS:
+        for nest, mk in enumerate(BIND_NESTS):
+            p, v = mk(p0, v0)
+            st = "".join(f"{n} := 0\n" for n in BIND_NAMES) + f"{p} = {v}"
+            for depth in range(0, maxd + 1):
+                for ck in ctxkinds:
+                    if keep(kind, "assign", nest, depth, ck):
+                        add(kind, "assign", nest, depth, ck, st, "", None)
+    for kind, p in FOR_PAIR_ERRORS:
+        for itname, it in FOR_ITERABLES:
+            if kind == "for_pair_value_pattern" and itname == "list-of-list":
+                continue        # the value is a list there
+            st = f"for {p} in {it} {{\n    print(\"in-body\")\n}}"
+            for depth in range(0, maxd + 1):
+                for ck in ctxkinds:
+                    if keep(kind, itname, 0, depth, ck):
+                        add(kind, "for-pair:" + itname, 0, depth, ck, st, "", None)
+    return out
+
+
+# ---------------------------------------------------------------------------------------------------------------------
+# number-like text: every way a run of digits can continue (a letter as in a radix or exponent prefix, `_`, `.`, a quote, a
+# non-ASCII letter or digit, nothing, the end of the file) x the place it is written in.  Whether such a text is a literal, two
+# tokens or a lexical error is not this property's business; what it says is: the script either succeeds (all planted prints,
+# nothing on stderr, status 0) or fails with one located diagnostic and status 103, after a prefix of the planted prints.
+NUM_HEADS = ["0", "1", "00", "0x", "0X", "0b", "0o", "0e", "1e", "1_", "0_", "0x_", "0x1", "0xf", "0b1", "1e5", "12", "0d", "0h", "1x",
+             "9223372036854775807", "9223372036854775808", "99999999999999999999", "0x7fffffffffffffff", "0xffffffffffffffff",
+             "0x10000000000000000", "0x_f", "0x__", "1__2", "_1", "0_x"]
+NUM_TAILS = ["", "_", "g", "x", "z", "G", "1", "f", "F", ".", "..", ".5", " ", ")", "é", "٣", "²", '"s"', "'", '$"s"', "#", "\\", "@", "-", "e+"]
+# (a quote that opens a literal running over the line break is left out: the `unexpected '<token>'` message quotes the token's
+# text raw, line break included, so the rest of the message continues on the next line — reported, not judged here)
+NUM_PLACES = {
+    "declare": "v_n := {t}",
+    "statement": "{t}",
+    "argument": "v_n := ident({t})",
+    "list-item": "v_n := [1, {t}, 2]",
+    "object-value": 'v_n := {{"k": {t}}}',
+    "index": "v_n := ok_list[{t}]",
+    "range-bound": "v_n := ok_list[0:{t}]",
+    "operand": "v_n := 1 + {t} + 1",
+    "condition": "if {t} == 0 {{\n    ok_acc += 1\n}}",
+    "in-function-never-called": "fn never() {{\n    return {t}\n}}",
+    "last-text-of-file": None,
+}
+
+
+def literal_cases(tier):
+    out = []
+    pre = 'fn ident(x) {\n    return x\n}\nok_list := [1, 2, 3]\nok_acc := 0\nprint("p0")\n'
+    for hi, h in enumerate(NUM_HEADS):
+        for ti, t in enumerate(NUM_TAILS):
+            for pi, (place, tmpl) in enumerate(NUM_PLACES.items()):
+                if tier != "thorough" and (hi + 2 * ti + 3 * pi) % 5 != 0 and not (place in ("declare", "last-text-of-file") and t in ("", "_", "g", "z")):
+                    continue
+                if tmpl is None:
+                    src = pre + "v_n := " + h + t          # no line break after it
+                    prints = ["p0\n"]
+                else:
+                    src = pre + tmpl.replace("{t}", h + t).replace("{{", "{").replace("}}", "}") + '\nprint("p1")\n'
+                    prints = ["p0\n", "p1\n"]
+                out.append(((h, t, place), src, prints))
+    return out
+
+
+def check_literal(r, src, prints):
+    full = "".join(prints)
+    if r["status"] == "0":
+        if r["stderr"] != "":
+            return f"a successful script wrote to stderr: {r['stderr'][:120]!r}"
+        if r["stdout"] != full:
+            return f"status 0 but stdout {r['stdout']!r} is not the planted prints {full!r}"
+        return None
+    if r["status"] != "103":
+        return f"the script neither succeeded nor failed with a diagnostic and status 103: status {r['status']}, stderr starts {r['stderr'][:160]!r}"
+    if r["stdout"] not in ["".join(prints[:k]) for k in range(len(prints) + 1)]:
+        return f"stdout {r['stdout']!r} is not the output of the prints completed before the failure"
+    m = FIRST.match(r["stderr"])
+    if not m:
+        return f"stderr does not start with `<path>:<line>:<col>: <message>`: {r['stderr'][:160]!r}"
+    if not 1 <= int(m.group(1)) <= src.count("\n") + 1:
+        return f"line {m.group(1)} does not point into the script"
+    if INTERNAL.search(m.group(4)):
+        return f"internal identifier in message: {m.group(4)[:160]!r}"
+    if r["stderr"][m.end():] != "":
+        return f"text after the diagnostic of a failure outside every function call: {r['stderr'][m.end():][:120]!r}"
+    return None
+
+
+def run_literals(ctx, model_ok):
+    cases = literal_cases(ctx.tier)
+    srcs = [c[1] for c in cases]
+    impl, dis = tie.run(ctx, srcs, "number_like_text", model_ok)
+    bad = []
+    for (key, src, prints), r in zip(cases, impl):
+        ctx.nontrivial(("number-like",) + key)
+        ctx.dist("number-like:" + r["status"])
+        why = check_literal(r, src, prints)
+        if why:
+            bad.append((key, src, prints, why))
+    bad.sort(key=lambda b: len(b[1]))
+    seen = set()
+    for key, src, prints, why in bad:
+        sig = re.sub(r"\d+", "N", why)[:40]
+        if sig in seen or len(seen) >= 4:
+            continue
+        c = core.run_cli(src)
+        ctx.cov["cli_reconfirmed"] += 1
+        cwhy = check_literal(c, src, prints)
+        if not cwhy:
+            continue
+        seen.add(sig)
+        ctx.violation("number-like text: " + cwhy, src, {"case": str(key), "cli": {**c, "stderr": c["stderr"][:600]}, "failing_cases_in_stream": len(bad)})
+    explained = {b[1] for b in bad}
+    tie.report_disagreements(ctx, [d for d in dis if d[0] not in explained], "number_like_text")
+
+
 def oracle_one(ctx, src, r, expected=None):
     if expected is None:
         if r["status"] == "0":
@@ -222,6 +700,8 @@ def oracle_one(ctx, src, r, expected=None):
             m = FIRST.match(r["stderr"])
             if not m or int(m.group(1)) < 1 or INTERNAL.search(m.group(4)):
                 return False, f"malformed diagnostic: {r['stderr'][:200]!r}"
+        if r["status"] == "101":
+            return False, f"the interpreter crashed (status 101) instead of reporting a located diagnostic with status 103: {r['stderr'][:200]!r}"
         return True, ""
     why = check_diag(r, *expected)
     return (why is None), (why or "")
@@ -280,6 +760,8 @@ def run(ctx, model_ok):
             cases.append(((j, "escapes_call", depth, "plain"), src, out, list(reversed(callers)), chain[-1] if chain else None))
     for j in ("break", "continue", "return 1"):
         cases.append(((j, "toplevel", 0, "block"),) + wrap(j, 0, "block"))
+    # binding errors in every binding position (`:=`, `=`, parameters, `for` targets, nested patterns)
+    cases.extend(binding_cases(ctx.tier, maxd))
     srcs = [c[1] for c in cases]
     impl, dis = tie.run(ctx, srcs, "error_sites", model_ok)
     bad = []
@@ -294,7 +776,8 @@ def run(ctx, model_ok):
     bad.sort(key=lambda b: len(b[1]))
     reported = {}
     for key, src, why, exp in bad:
-        sig = re.sub(r"\d+", "N", why)[:60] + "|" + (key[0] if key[1] in ("stmt", "escapes_call") else key[1] if "return" in key[1] else "")
+        sig = re.sub(r"\d+", "N", why)[:60] + "|" + (key[0] if key[1] in ("stmt", "escapes_call") else key[1] if "return" in key[1] else
+                                                     key[1].split("/")[0] if key[1].startswith("binder:") else "")
         if sig in reported:
             reported[sig] += 1
             continue
@@ -314,6 +797,8 @@ def run(ctx, model_ok):
     tie.report_disagreements(ctx, [d for d in dis if d[0] not in explained], "error_sites")
     for k in (len(cases) // 3, len(cases) * 2 // 3):
         ctx.sample({"case": str(cases[k][0]), "src": cases[k][1][-400:], "impl_stderr": impl[k]["stderr"]})
+    run_recursion(ctx, model_ok)
+    run_literals(ctx, model_ok)
     # positions count characters: multi-byte text earlier on the line of the failing construct and of each call
     import lib_syntax as LS
     marked = [
